@@ -69,3 +69,120 @@ void h_write_page_header(void) {
   CQV_CANARY("parquet_write_page_header returns");
   if (st == CARQUET_OK) CQV_CANARY("parquet_write_page_header can succeed");
 }
+
+/* ======================= C13 parser dispatch / C17 logical-type ids (-DCQV_PT_RLOG) =========================
+ * The thrift_read_* bodies of stubs/ptypes_stubs.c serve ONE ghost field (cqv_rl_type, cqv_rl_id) to the first
+ * thrift_read_field_begin call and count reader calls.  Lemma per parse function: for that arbitrary first field the
+ * function calls exactly the reader of the kind parquet.thrift declares for (struct, id) when the wire type matches,
+ * and thrift_skip(wire type) - nothing else - when the id is not a field of the struct (or one carquet ignores).
+ * Bounded: first field only, nested structs empty, list length <= 2. */
+static void cqv_rl_reset(void) {
+  cqv_rl_calls = 0; cqv_rl_n_byte = cqv_rl_n_i16 = cqv_rl_n_i32 = cqv_rl_n_i64 = cqv_rl_n_bool = cqv_rl_n_bin = 0;
+  cqv_rl_n_list = cqv_rl_n_skip = cqv_rl_n_begin = cqv_rl_n_end = 0; cqv_rl_skip_type = -1;
+  cqv_rl_type = (int)(nondet_unsigned() & 15);
+  cqv_rl_id = (int16_t)nondet_int();
+  cqv_rl_count = nondet_int();
+  __CPROVER_assume(cqv_rl_type != 0 && cqv_rl_count >= 0 && cqv_rl_count <= 2);
+}
+static int cqv_rl_readers(void) {
+  return cqv_rl_n_byte + cqv_rl_n_i16 + cqv_rl_n_i32 + cqv_rl_n_i64 + cqv_rl_n_bool + cqv_rl_n_bin + cqv_rl_n_list;
+}
+/* ignored: bit set of ids of struct `kind` that parquet.thrift declares but carquet deliberately skips */
+static void cqv_rl_check(int kind, unsigned ignored) {
+  int id = cqv_rl_id, t = cqv_rl_type, n = cqv_rl_count;
+  int w = cqv_pt_wire(kind, id);
+  _Bool ign = id >= 0 && id < 32 && ((ignored >> id) & 1u);
+  if (w == 0 || ign) {
+    __CPROVER_assert(cqv_rl_n_skip == 1 && cqv_rl_skip_type == t, "C13 parser: unknown/ignored field is skipped with its own wire type");
+    __CPROVER_assert(cqv_rl_readers() == 0 && cqv_rl_n_begin == 1 && cqv_rl_n_end == 1, "C13 parser: nothing else is read for an unknown/ignored field");
+    CQV_CANARY("dispatch: unknown field case");
+  } else if (cqv_pt_wire_matches(w, t)) {
+    __CPROVER_assert(cqv_rl_n_skip == 0, "C13 parser: a known field with the declared wire type is not skipped");
+    if (w == W_I8) __CPROVER_assert(cqv_rl_n_byte == 1 && cqv_rl_readers() == 1 && cqv_rl_n_begin == 1, "C13 parser: i8 field read by thrift_read_byte only");
+    if (w == W_I16) __CPROVER_assert(cqv_rl_n_i16 == 1 && cqv_rl_readers() == 1 && cqv_rl_n_begin == 1, "C13 parser: i16 field read by thrift_read_i16 only");
+    if (w == W_I32) __CPROVER_assert(cqv_rl_n_i32 == 1 && cqv_rl_readers() == 1 && cqv_rl_n_begin == 1, "C13 parser: i32 field read by thrift_read_i32 only");
+    if (w == W_I64) __CPROVER_assert(cqv_rl_n_i64 == 1 && cqv_rl_readers() == 1 && cqv_rl_n_begin == 1, "C13 parser: i64 field read by thrift_read_i64 only");
+    if (w == W_BOOL) __CPROVER_assert(cqv_rl_n_bool == 1 && cqv_rl_readers() == 1 && cqv_rl_n_begin == 1, "C13 parser: bool field read by thrift_read_bool only");
+    if (w == W_BIN) __CPROVER_assert(cqv_rl_n_bin == 1 && cqv_rl_readers() == 1 && cqv_rl_n_begin == 1, "C13 parser: binary field read by thrift_read_binary only");
+    if (w == W_STRUCT) __CPROVER_assert(cqv_rl_readers() == 0 && cqv_rl_n_begin == 2 && cqv_rl_n_end == 2, "C13 parser: struct field parsed as one nested struct");
+    if (w == W_LIST) {
+      int e = cqv_pt_elem(kind, id);
+      __CPROVER_assert(cqv_rl_n_list == 1, "C13 parser: list field read by thrift_read_list_begin");
+      if (e == W_I32) __CPROVER_assert(cqv_rl_n_i32 == n && cqv_rl_readers() == 1 + n && cqv_rl_n_begin == 1, "C13 parser: list<i32>: one thrift_read_i32 per element");
+      if (e == W_BIN) __CPROVER_assert(cqv_rl_n_bin == n && cqv_rl_readers() == 1 + n && cqv_rl_n_begin == 1, "C13 parser: list<binary>: one thrift_read_binary per element");
+      if (e == W_STRUCT) __CPROVER_assert(cqv_rl_readers() == 1 && cqv_rl_n_begin == 1 + n && cqv_rl_n_end == 1 + n, "C13 parser: list<struct>: one nested struct per element");
+      CQV_CANARY("dispatch: list field case");
+    }
+    CQV_CANARY("dispatch: known field case");
+  }
+  __CPROVER_assert(cqv_rl_n_begin == cqv_rl_n_end, "C13 parser: struct_begin/struct_end paired");
+}
+static thrift_decoder_t *mk_dec(void) {
+  thrift_decoder_t *d = malloc(sizeof(*d));
+  __CPROVER_assume(d != NULL);
+  d->status = CARQUET_OK; d->nesting_level = 0;
+  return d;
+}
+
+/* LogicalType union: tag -> carquet logical type id (specs: CQV_PT_LT_ID), parameter structs parsed, others skipped */
+void h_disp_logical_type(void) {
+  cqv_rl_reset(); thrift_decoder_t *dec = mk_dec(); MK(carquet_logical_type_t, lt);
+  parse_logical_type(dec, lt);
+  int tag = cqv_rl_id, t = cqv_rl_type;
+  if (CQV_PT_LT_KNOWN(tag)) {
+    __CPROVER_assert(lt->id == CQV_PT_LT_ID(tag), "C13/C17 parser: LogicalType union tag maps to the logical type parquet.thrift declares for it");
+    if (tag == 5 || tag == 7 || tag == 8 || tag == 10) {
+      if (t == W_STRUCT) __CPROVER_assert(cqv_rl_n_skip == 0 && cqv_rl_n_begin == 2 && cqv_rl_n_end == 2, "C13 parser: parameter struct of DECIMAL/TIME/TIMESTAMP/INTEGER is parsed, not skipped");
+      CQV_CANARY("logical type: parameterised tag");
+    } else {
+      __CPROVER_assert(cqv_rl_n_skip == 1 && cqv_rl_skip_type == t && cqv_rl_readers() == 0 && cqv_rl_n_begin == 1, "C13 parser: empty member struct is skipped with its wire type");
+      CQV_CANARY("logical type: parameterless tag");
+    }
+  } else {
+    __CPROVER_assert(lt->id == CARQUET_LOGICAL_UNKNOWN, "C13/C17 parser: unknown union tag leaves the logical type UNKNOWN");
+    __CPROVER_assert(cqv_rl_n_skip == 1 && cqv_rl_skip_type == t && cqv_rl_readers() == 0, "C13 parser: unknown union member skipped with its wire type");
+    CQV_CANARY("logical type: unknown tag");
+  }
+  __CPROVER_assert(cqv_rl_n_begin == cqv_rl_n_end, "C13 parser: struct_begin/struct_end paired");
+}
+void h_disp_statistics(void) {
+  cqv_rl_reset(); thrift_decoder_t *dec = mk_dec(); MK(parquet_statistics_t, s);
+  parse_statistics(dec, nondet_ptr(), s);
+  cqv_rl_check(K_STATISTICS, 0u);
+}
+void h_disp_schema_element(void) {
+  cqv_rl_reset(); thrift_decoder_t *dec = mk_dec(); MK(parquet_schema_element_t, e);
+  parse_schema_element(dec, nondet_ptr(), e);
+  cqv_rl_check(K_SCHEMA_ELEMENT, 0u);
+}
+void h_disp_column_metadata(void) {
+  cqv_rl_reset(); thrift_decoder_t *dec = mk_dec(); MK(parquet_column_metadata_t, m);
+  parse_column_metadata(dec, nondet_ptr(), m);
+  cqv_rl_check(K_COLUMN_META, (1u << 16) | (1u << 17));
+}
+void h_disp_column_chunk(void) {
+  cqv_rl_reset(); thrift_decoder_t *dec = mk_dec(); MK(parquet_column_chunk_t, c);
+  parse_column_chunk(dec, nondet_ptr(), c);
+  cqv_rl_check(K_COLUMN_CHUNK, (1u << 8) | (1u << 9));
+}
+void h_disp_row_group(void) {
+  cqv_rl_reset(); thrift_decoder_t *dec = mk_dec(); MK(parquet_row_group_t, rg);
+  parse_row_group(dec, nondet_ptr(), rg);
+  cqv_rl_check(K_ROW_GROUP, 1u << 4);
+}
+void h_disp_file_metadata(void) {
+  cqv_rl_reset();
+  size_t n = nondet_size_t(); __CPROVER_assume(n >= 1 && n <= CQV_MAXBUF);
+  uint8_t *data = malloc(n); __CPROVER_assume(data != NULL);
+  MK(parquet_file_metadata_t, md); carquet_arena_t *arena = malloc(sizeof(*arena)); __CPROVER_assume(arena != NULL);
+  carquet_status_t st = parquet_parse_file_metadata(data, n, arena, md, NULL);
+  cqv_rl_check(K_FILE_META, (1u << 7) | (1u << 8) | (1u << 9));
+}
+void h_disp_page_header(void) {
+  cqv_rl_reset();
+  size_t n = nondet_size_t(); __CPROVER_assume(n >= 1 && n <= CQV_MAXBUF);
+  uint8_t *data = malloc(n); __CPROVER_assume(data != NULL);
+  MK(parquet_page_header_t, h); size_t br;
+  carquet_status_t st = parquet_parse_page_header(data, n, h, &br, NULL);
+  cqv_rl_check(K_PAGE_HEADER, 1u << 6);
+}
